@@ -3,6 +3,7 @@ package otp
 import (
 	"errors"
 	"fmt"
+	"math"
 	"strconv"
 	"strings"
 )
@@ -332,6 +333,9 @@ func parseTimeGranularity(g string) (int, error) {
 	val, err := strconv.Atoi(numStr)
 	if err != nil {
 		return 0, err
+	}
+	if val > math.MaxInt/3600 || val < math.MinInt/3600 {
+		return 0, fmt.Errorf("time step %q out of range", numStr)
 	}
 	switch unit {
 	case 'S':
